@@ -25,7 +25,7 @@ META = {
     "text": "Valid calls: 8 model shapes (single variable, Matrix label gaps / isolated variables, a degree-6 term, only linear terms, stale models with reported variables but no term, constant "
             "plus term, dense) x every accepted container x 9 schedules (incl. [], [0], [0,0]) x num_anneals {1,2,5} x 3 initial states x both orders x seeds {0, None} x the four functions, "
             "each executed on the sanitizer build; all ordered pairs of 24 representative calls in one process (second result must equal its stand-alone result); scripted-RNG tapes within 1 (quick) / "
-            "2 (thorough) deviations with extreme words and all site indices. Any ASan/UBSan report, signal or abnormal exit is a violation attributed to the announced call.",
+            "2 (thorough) deviations with extreme words and all site indices (bounds above 9: the two ends and the middle). Any ASan/UBSan report, signal or abnormal exit is a violation attributed to the announced call.",
     "note": "Trusted: gcc sanitizer runtimes, valgrind. Bounded call shapes as listed. D4 (heap overflow in anneal_puso.c with zero terms) was found here and fixed.",
 }
 
